@@ -15,6 +15,7 @@ from fractions import Fraction
 import numbers
 
 import z3
+import numpy as _np
 
 
 class Concretize(Exception):
@@ -118,6 +119,11 @@ class SymReal:
         self.z = z
 
     def _bin(self, o, f, r=False):
+        if isinstance(o, _np.ndarray):
+            out = _np.empty(o.shape, dtype=object)
+            for i, e in enumerate(o.flat):
+                out.flat[i] = self._bin(e, f, r)
+            return out
         l = _lift(o)
         if l is NotImplemented:
             return NotImplemented
@@ -142,6 +148,11 @@ class SymReal:
         return s._bin(o, lambda a, b: a * b, True)
 
     def _div(s, o, r=False):
+        if isinstance(o, _np.ndarray):
+            out = _np.empty(o.shape, dtype=object)
+            for i, e in enumerate(o.flat):
+                out.flat[i] = s._div(e, r)
+            return out
         l = _lift(o)
         if l is NotImplemented:
             return NotImplemented
@@ -184,6 +195,8 @@ class SymReal:
                 e = int(e) if e.denominator == 1 else float(e)
             else:
                 raise Concretize("symbolic exponent")
+        if isinstance(e, (int,)) and not isinstance(e, bool) and e > 4 and _ENG.int_pow_uf:
+            return _ENG.upow_int(s, e)
         if isinstance(e, (int,)) and not isinstance(e, bool) and 0 <= e <= 4:
             r = SymReal(z3.RealVal(1))
             for _ in range(e):
@@ -199,6 +212,13 @@ class SymReal:
         return -s if (s < 0) else s
 
     def _cmp(s, o, f):
+        if isinstance(o, _np.ndarray):
+            # comparison against an array (reflected from ndarray.__gt__ etc.): decided elementwise right away so that the
+            # result is a plain boolean mask usable for indexing
+            out = _np.empty(o.shape, dtype=bool)
+            for i, e in enumerate(o.flat):
+                out.flat[i] = bool(s._cmp(e, f))
+            return out
         l = _lift(o)
         if l is NotImplemented:
             return NotImplemented
@@ -249,6 +269,7 @@ class SymReal:
             fr = Fraction(zs.numerator_as_long(), zs.denominator_as_long())
             r = round(fr, n) if n is not None else round(fr)
             return SymReal(_q(Fraction(r)))
+        _ENG.round_events.append((str(zs)[:80], n))
         k = _ENG.fresh_int("round_k")
         sc = z3.RatVal(10 ** (n or 0), 1) if (n or 0) >= 0 else z3.RatVal(1, 10 ** (-n))
         _ENG.solver.add(zs * sc - z3.ToReal(k) <= z3.RatVal(1, 2), zs * sc - z3.ToReal(k) >= z3.RatVal(-1, 2))
@@ -257,6 +278,7 @@ class SymReal:
     def trunc_toward_zero(s):
         """what storing into an int64 numpy array does to a non-integer value"""
         zs = _simp(s.z)
+        _ENG.trunc_events.append(str(zs)[:80])
         k = _ENG.fresh_int("trunc_k")
         kr = z3.ToReal(k)
         _ENG.solver.add(z3.Or(z3.And(zs >= 0, kr <= zs, zs < kr + 1), z3.And(zs < 0, kr >= zs, zs > kr - 1)))
@@ -299,8 +321,11 @@ class Engine:
         self.upow_terms = {}
         self.solver = None
         self.prune_on = (AssertionError,)
+        self.int_pow_uf = False     # x**n (n > 4) as an uninterpreted function (monotone, positive) when True
         self.div0_mode = "raise"    # or "numpy"
         self.div0_events = []
+        self.round_events = []
+        self.trunc_events = []
 
     # ---- symbols ----
     def real(self, name):
@@ -336,6 +361,13 @@ class Engine:
         self.solver.add(ax)
         return SymReal(y)
 
+    def upow_int(self, s, n):
+        f = z3.Function("ipow_%d" % n, z3.RealSort(), z3.RealSort())
+        x = _simp(s.z)
+        y = f(x)
+        self.solver.add(z3.Implies(x >= 0, y >= 0), z3.Implies(x >= 1, y >= 1), z3.Implies(x == 1, y == 1), z3.Implies(x == 0, y == 0))
+        return SymReal(y)
+
     # ---- solver plumbing ----
     def _new_solver(self):
         s = z3.Solver()
@@ -362,6 +394,12 @@ class Engine:
         if z3.is_false(cond):
             return False
         self.stats["branches"] += 1
+        # the same condition decided earlier on this path is implied by the path condition: no query, no tape position
+        cid = cond.get_id()
+        if cid in self.memo:
+            return self.memo[cid]
+        if z3.is_not(cond) and cond.arg(0).get_id() in self.memo:
+            return not self.memo[cond.arg(0).get_id()]
         if self.pos < len(self.tape):
             b = self.tape[self.pos]
         else:
@@ -382,6 +420,8 @@ class Engine:
             self.tape.append(b)
         self.pos += 1
         self.solver.add(cond if b else z3.Not(cond))
+        self.memo[cid] = b
+        self._keep.append(cond)
         return b
 
     def assume(self, c):
@@ -455,7 +495,11 @@ class Engine:
                 self.pos = 0
                 self.solver = self._new_solver()
                 self.upow_path = []
+                self.memo = {}
+                self._keep = []   # keeps decided ASTs alive so that their ids are not reused
                 self.div0_events = []
+                self.round_events = []
+                self.trunc_events = []
                 self.stats["paths"] += 1
                 try:
                     fn(self)
